@@ -90,9 +90,16 @@ def get_total_usages(req):
     sum/total of usages.
     Return 404 Not Found if the wanted microversion does not match.
     """
-    project_id = req.GET.get('project_id')
-    user_id = req.GET.get('user_id')
-    consumer_type = req.GET.get('consumer_type')
+    try:
+        project_id = req.GET.get('project_id')
+        user_id = req.GET.get('user_id')
+        consumer_type = req.GET.get('consumer_type')
+    except UnicodeDecodeError as exc:
+        # The query string is not valid UTF-8. Every other handler reads
+        # req.GET only after util.validate_query_params() has turned this
+        # into a 400; here the project_id is needed for the policy check.
+        raise webob.exc.HTTPBadRequest(
+            'Invalid query string parameters: %(exc)s' % {'exc': exc})
 
     context = req.environ['placement.context']
     context.can(
